@@ -19,7 +19,7 @@ variable {ν : Type} [DecidableEq ν]
 /-- After any call history on a bus handler: region names are unique across `regions ∪ io_regions`, any two
     distinct non-linker regions have disjoint decoded (power-of-two) windows, likewise any two IO regions,
     slave names are unique and every slave has a region. -/
-theorem regions_disjoint_inv (aw dw : Nat) (ops : List (BusOp ν)) :
+theorem regions_disjoint_inv [AutoNames ν] (aw dw : Nat) (ops : List (BusOp ν)) :
     let s := ({ aw := aw, dw := dw } : BusH ν).run ops
     (s.regions.map (·.1) ++ s.ioRegions.map (·.1)).Nodup ∧
     (∀ n0 r0 n1 r1, (n0, r0) ∈ s.regions → (n1, r1) ∈ s.regions → n0 ≠ n1 →
@@ -52,7 +52,7 @@ example :
        .addRegion 4 { io := true, origin := some 0x80000000, size := 0x10000, cached := false },
        .addRegion 5 { origin := some 0x4000, size := 0x100, cached := false },
        .addRegion 6 { origin := none, size := 0x1000 },
-       .addSlave 7 (some { origin := none, size := 0x100, cached := false })]).regions
+       .addSlave (some 7) (some { origin := none, size := 0x100, cached := false })]).regions
     = [(1, ⟨0x0, 0x1800, true, false, true⟩), (2, ⟨0x2000, 0x1800, true, false, true⟩),
        (6, ⟨0x4000, 0x1000, true, false, true⟩), (7, ⟨0x80000000, 0x100, false, false, true⟩)] := by
   decide +kernel
@@ -137,6 +137,47 @@ theorem alloc_terminates (s : BusH ν) (size : Nat) (cached : Bool) :
       subst hc
       exact allocSearch_ne_fuel (by omega) _ he
 
+
+/-! ## Masters and slaves: names unique, nobody silently replaced -/
+
+/-- After any history (explicit names, automatic `master<N>` / `slave<N>` names under *any* naming scheme, in any
+    mixture): master names are unique, slave names are unique, and every master/slave registered after a prefix
+    of the history is still registered, at the same position, after the whole history — an automatically named
+    master can never take the place of an earlier one. -/
+theorem masters_names_unique_never_lost [AutoNames ν] (aw dw : Nat) (ops1 ops2 : List (BusOp ν)) :
+    let s1 := ({ aw := aw, dw := dw } : BusH ν).run ops1
+    let s2 := ({ aw := aw, dw := dw } : BusH ν).run (ops1 ++ ops2)
+    s2.masters.Nodup ∧ s2.slaves.Nodup ∧ s1.masters <+: s2.masters ∧ s1.slaves <+: s2.slaves := by
+  intro s1 s2
+  have hi1 : BusH.Inv s1 := BusH.run_inv ops1 (BusH.inv_init aw dw)
+  have hi2 : BusH.Inv s2 := BusH.run_inv (ops1 ++ ops2) (BusH.inv_init aw dw)
+  have e : s2 = s1.run ops2 := BusH.run_append _ ops1 ops2
+  rw [e]
+  have hp := BusH.run_prefix ops2 hi1
+  rw [← e]
+  exact ⟨hi2.masters_nodup, hi2.slaves_nodup, e ▸ hp.1, e ▸ hp.2⟩
+
+/-- Every accepted `add_master` registers exactly one more master under a name (explicit, or generated from the
+    current number of masters) that no registered master carries; all earlier masters stay. -/
+theorem add_master_grants_fresh_name [AutoNames ν] (s s' : BusH ν) (name : Option ν) (h : s.apply (.addMaster name) = .ok s') :
+    s'.masters = s.masters ++ [name.getD (AutoNames.master s.masters.length)] ∧
+    name.getD (AutoNames.master s.masters.length) ∉ s.masters ∧
+    s'.masters.length = s.masters.length + 1 := by
+  obtain ⟨a, b, _⟩ := BusH.addMaster_spec (show s.addMaster _ = .ok s' from h)
+  exact ⟨a, b, by rw [a]; simp⟩
+
+/-- Non-vacuity and the seeded-change scenario: `add_master()`, `add_master("master2")`, `add_master()` — the
+    third call generates `master2` (= 1002 in the driver's encoding), which is taken, and is rejected; the
+    three-master variant with a free generated name is accepted. -/
+example :
+    (({ aw := 32, dw := 32 } : BusH Nat).run [.addMaster none, .addMaster (some 1002), .addMaster none]).masters
+      = [1000, 1002] ∧
+    (({ aw := 32, dw := 32 } : BusH Nat).verdicts [.addMaster none, .addMaster (some 1002), .addMaster none])
+      = [none, none, some .dupMaster] ∧
+    (({ aw := 32, dw := 32 } : BusH Nat).run [.addMaster none, .addMaster (some 7), .addMaster none,
+        .addSlave none (some { origin := none, size := 0x100 }), .addSlave none none]).masters = [1000, 7, 1002] := by
+  decide +kernel
+
 /-! ## Decoders -/
 
 /-- For an origin aligned on `size_pow2`, a decoded region of at least one bus word: the predicate built by
@@ -185,7 +226,7 @@ theorem finalize_rejects_unaligned (s : BusH ν) (hfin : s.finalize = .ok ())
 /-- No word address selects two slaves: after any call history followed by a successful `do_finalize`, two
     different slaves with non-linker regions of at least one bus word never both decode the same address.
     (`_partial`: hypotheses `hw0 hw1`.) -/
-theorem one_slave_per_address_partial (aw dw sh : Nat) (ops : List (BusOp ν))
+theorem one_slave_per_address_partial [AutoNames ν] (aw dw sh : Nat) (ops : List (BusOp ν))
     (hdw : dw / 8 = 2 ^ sh) (hsh : sh ≤ aw) :
     let s := ({ aw := aw, dw := dw } : BusH ν).run ops
     s.finalize = .ok () → s.masters ≠ [] →
@@ -224,8 +265,8 @@ theorem one_slave_per_address_partial (aw dw sh : Nat) (ops : List (BusOp ν))
     addresses of its own window. -/
 example :
     let s := ({ aw := 32, dw := 32 } : BusH Nat).run
-      [.addSlave 1 (some { origin := some 0x0, size := 0x1000 }), .addMaster 9,
-       .addSlave 2 (some { origin := some 0x2000, size := 0x1800 })]
+      [.addSlave (some 1) (some { origin := some 0x0, size := 0x1000 }), .addMaster (some 9),
+       .addSlave (some 2) (some { origin := some 0x2000, size := 0x1800 })]
     s.finalize = .ok () ∧ s.masters ≠ [] ∧ s.slaves = [1, 2] ∧
     s.regionOf 2 = some ⟨0x2000, 0x1800, true, false, true⟩ ∧
     decoderAccepts 32 32 ⟨0x2000, 0x1800, true, false, true⟩ 0xfff = true ∧
@@ -235,8 +276,8 @@ example :
     `0x1001` and `0x1002` are both accepted, finalize succeeds, and both decoders select word `0x400`. -/
 example :
     let s := ({ aw := 32, dw := 32 } : BusH Nat).run
-      [.addSlave 1 (some { origin := some 0x1001, size := 1 }), .addSlave 2 (some { origin := some 0x1002, size := 1 }),
-       .addMaster 9]
+      [.addSlave (some 1) (some { origin := some 0x1001, size := 1 }), .addSlave (some 2) (some { origin := some 0x1002, size := 1 }),
+       .addMaster (some 9)]
     s.finalize = .ok () ∧ s.slaves = [1, 2] ∧
     s.regionOf 1 = some ⟨0x1001, 1, true, false, true⟩ ∧ s.regionOf 2 = some ⟨0x1002, 1, true, false, true⟩ ∧
     decoderAccepts 32 32 ⟨0x1001, 1, true, false, true⟩ 0x400 = true ∧
@@ -245,8 +286,8 @@ example :
 /-- An unaligned slave origin is refused by finalize (and accepted once aligned). -/
 example :
     (({ aw := 32, dw := 32 } : BusH Nat).run
-      [.addSlave 1 (some { origin := some 0x800, size := 0x1000 }), .addSlave 2 (some { origin := some 0x4000, size := 0x1000 }),
-       .addMaster 9]).finalize = .error .unaligned := by decide +kernel
+      [.addSlave (some 1) (some { origin := some 0x800, size := 0x1000 }), .addSlave (some 2) (some { origin := some 0x4000, size := 0x1000 }),
+       .addMaster (some 9)]).finalize = .error .unaligned := by decide +kernel
 
 /-! ## CSR pages and interrupt numbers -/
 
